@@ -13,14 +13,19 @@ with items := INil | ICons (i : item) (r : items).
 Inductive note :=
 | NBegin (e : nat)        (* begin_execution delivered to the analyses of engine e *)
 | NEv (e : nat)           (* some location-carrying hook delivered through engine e *)
+| NRe (e : nat)           (* the runtime_event("", -1) that _catch_ delivers before the uncaught report *)
 | NUncaught (e : nat)     (* uncaught_exception *)
 | NEnd (e : nat)          (* end_execution *)
 | NDump (e : nat).        (* coverage file of engine e written *)
 
-Inductive out := ONormal | ORaise | OExit.
+Inductive out := ONormal | ORaise | OExit
+| OCrash.   (* an exception raised by the engine itself inside _catch_ (coverage accounting of a non-location event) *)
 
 Record proc := { slot : option nat; created : nat; ended : list nat; notes : list note }.
 Definition init : proc := {| slot := None; created := 0; ended := []; notes := [] |}.
+
+Section WithCoverage.
+Variable cov : bool.   (* DYNAPYT_COVERAGE set? *)
 
 Definition emit (n : list note) (p : proc) : proc :=
   {| slot := slot p; created := created p; ended := ended p; notes := notes p ++ n |}.
@@ -41,8 +46,13 @@ Definition end_exec (e : nat) (p : proc) : proc :=
   if memn e (ended p) then p
   else {| slot := None; created := created p; ended := e :: ended p; notes := notes p ++ [NEnd e; NDump e] |}.
 
-(* _catch_: runtime_event("", -1), uncaught_exception, end_execution, re-raise *)
-Definition catch (h : nat) (p : proc) : proc := end_exec h (emit [NEv h; NUncaught h] p).
+(* _catch_: runtime_event("", -1), uncaught_exception, end_execution, re-raise of the same exception.
+   (Coverage accounting skips events that carry no location since fix 61a6cb4, so [cov] no longer matters
+   here; OCrash is kept in the outcome type as the way the correspondence stream reports an exception
+   raised by the engine itself.) *)
+Definition catch (h : nat) (p : proc) : out * proc :=
+  if cov then (ORaise, end_exec h (emit [NRe h; NUncaught h] p))
+  else (ORaise, end_exec h (emit [NRe h; NUncaught h] p)).
 
 Fixpoint run_item (h : nat) (i : item) (p : proc) : out * proc :=
   match i with
@@ -53,7 +63,9 @@ Fixpoint run_item (h : nat) (i : item) (p : proc) : out * proc :=
     let '(h', p1) := get_engine p in
     let '(o, p2) := run_items h' body p1 in
     match o with
-    | ORaise => let p3 := catch h' p2 in if handled then (ONormal, p3) else (ORaise, p3)
+    | ORaise | OCrash =>
+      let '(o3, p3) := catch h' p2 in
+      match o3 with ORaise => if handled then (ONormal, p3) else (ORaise, p3) | _ => (o3, p3) end
     | _ => (o, p2)
     end
   end
@@ -68,6 +80,8 @@ with run_items (h : nat) (is : items) (p : proc) : out * proc :=
 (* the entry module is itself an instrumented module *)
 Definition run_entry (body : items) (p : proc) : out * proc := run_item 0 (IImport body false) p.
 
+End WithCoverage.
+
 Inductive launch := LRunAnalysis | LDirect.
 
 Fixpoint atexit (n : nat) (p : proc) : proc :=     (* handlers run last-registered first *)
@@ -80,8 +94,9 @@ Definition finish (l : launch) (o : out) (p : proc) : proc :=
             end in
   atexit (created p1) p1.
 
-Definition run_process (l : launch) (body : items) : proc :=
-  let '(o, p) := run_entry body init in finish l o p.
+Definition run_process_cov (cov : bool) (l : launch) (body : items) : out * proc :=
+  let '(o, p) := run_entry cov body init in (o, finish l o p).
+Definition run_process (l : launch) (body : items) : proc := snd (run_process_cov false l body).
 
 (* ------------------------------------------------------------------ single module *)
 Fixpoint no_import (is : items) : bool :=
@@ -97,8 +112,8 @@ Fixpoint prefix (is : items) : nat * out :=
   | ICons (IImport _ _) r => prefix r
   end.
 
-Lemma run_items_flat h : forall is p, no_import is = true ->
-  run_items h is p = (snd (prefix is), emit (repeat (NEv h) (fst (prefix is))) p).
+Lemma run_items_flat cov h : forall is p, no_import is = true ->
+  run_items cov h is p = (snd (prefix is), emit (repeat (NEv h) (fst (prefix is))) p).
 Proof.
   induction is as [|i r IH] using (items_ind) ; intros p H.
   - simpl. unfold emit. rewrite app_nil_r. destruct p; reflexivity.
@@ -107,16 +122,36 @@ Proof.
 Qed.
 
 Definition tail_of (o : out) : list note :=
-  match o with ORaise => [NEv 0; NUncaught 0; NEnd 0; NDump 0] | _ => [NEnd 0; NDump 0] end.
+  match o with ORaise | OCrash => [NRe 0; NUncaught 0; NEnd 0; NDump 0] | _ => [NEnd 0; NDump 0] end.
 
-(* C12 (single instrumented module, every launch mode, every way out):
+(* C12 (single instrumented module, every launch mode, every way out, coverage on or off):
    begin once first, the events, [the uncaught report once], end once last, coverage dumped once after it *)
+Theorem single_module_grammar_cov cov l body : no_import body = true ->
+  notes (snd (run_process_cov cov l body)) = NBegin 0 :: repeat (NEv 0) (fst (prefix body)) ++ tail_of (snd (prefix body)).
+Proof.
+  intros H. unfold run_process_cov, run_entry. simpl.
+  rewrite (run_items_flat cov 0 body _ H). destruct (prefix body) as [k o]. simpl.
+  destruct o, l, cov; simpl; unfold catch, end_exec, emit; simpl; rewrite <- ?app_assoc; reflexivity.
+Qed.
+
 Theorem single_module_grammar l body : no_import body = true ->
   notes (run_process l body) = NBegin 0 :: repeat (NEv 0) (fst (prefix body)) ++ tail_of (snd (prefix body)).
+Proof. apply single_module_grammar_cov. Qed.
+
+(* what leaves the process is the program's own outcome (ORaise = its own exception re-raised), never an
+   exception of the engine *)
+Lemma prefix_not_crash : forall is, snd (prefix is) <> OCrash.
 Proof.
-  intros H. unfold run_process, run_entry. simpl.
-  rewrite (run_items_flat 0 body _ H). destruct (prefix body) as [k o]. simpl.
-  destruct o, l; simpl; unfold catch, end_exec, emit; simpl; rewrite <- ?app_assoc; reflexivity.
+  induction is as [|i r IH] using items_ind; simpl; [discriminate|].
+  destruct i; simpl; try discriminate; [|exact IH]. destruct (prefix r) as [k o]. exact IH.
+Qed.
+
+Theorem single_module_outcome cov l body : no_import body = true ->
+  fst (run_process_cov cov l body) = snd (prefix body).
+Proof.
+  intros H. unfold run_process_cov, run_entry. simpl.
+  rewrite (run_items_flat cov 0 body _ H). pose proof (prefix_not_crash body) as NC.
+  destruct (prefix body) as [k o]. simpl in *. destruct o, cov; try reflexivity; congruence.
 Qed.
 
 (* ------------------------------------------------------------------ several modules *)
@@ -152,59 +187,61 @@ Proof. unfold emit. rewrite app_nil_r. destruct p; reflexivity. Qed.
 Lemma emit_emit a b p : emit b (emit a p) = emit (a ++ b) p.
 Proof. unfold emit. simpl. rewrite app_assoc. reflexivity. Qed.
 
-Lemma multi :
+Definition quiet (o : out) : Prop := o = ONormal \/ o = OExit.
+
+Lemma multi cov :
   (forall i p, no_raise_i i = true -> steady p ->
-     run_item 0 i p = (snd (evs_i i), emit (repeat (NEv 0) (fst (evs_i i))) p) /\ snd (evs_i i) <> ORaise)
+     run_item cov 0 i p = (snd (evs_i i), emit (repeat (NEv 0) (fst (evs_i i))) p) /\ quiet (snd (evs_i i)))
   /\ (forall is p, no_raise is = true -> steady p ->
-     run_items 0 is p = (snd (evs is), emit (repeat (NEv 0) (fst (evs is))) p) /\ snd (evs is) <> ORaise).
+     run_items cov 0 is p = (snd (evs is), emit (repeat (NEv 0) (fst (evs is))) p) /\ quiet (snd (evs is))).
 Proof.
   apply item_items_ind.
-  - intros p _ _. simpl. split; [reflexivity|discriminate].
+  - intros p _ _. simpl. split; [reflexivity|left; reflexivity].
   - intros p H. discriminate.
-  - intros p _ _. simpl. rewrite emit_nil. split; [reflexivity|discriminate].
+  - intros p _ _. simpl. rewrite emit_nil. split; [reflexivity|right; reflexivity].
   - intros body IH handled p H S. simpl in H. simpl.
     destruct S as [S1 [S2 S3]]. unfold get_engine. rewrite S1.
     destruct (IH p H (conj S1 (conj S2 S3))) as [E N]. rewrite E.
-    destruct (snd (evs body)); try congruence; split; try reflexivity; discriminate.
-  - intros p _ _. simpl. rewrite emit_nil. split; [reflexivity|discriminate].
+    destruct N as [N|N]; rewrite N; split; try reflexivity; [left|right]; reflexivity.
+  - intros p _ _. simpl. rewrite emit_nil. split; [reflexivity|left; reflexivity].
   - intros i IHi r IHr p H S. simpl in H. apply andb_true_iff in H. destruct H as [H1 H2].
     simpl. destruct (IHi p H1 S) as [E N]. rewrite E.
-    destruct (evs_i i) as [k o]. simpl in *. destruct o; try congruence.
+    destruct (evs_i i) as [k o]. simpl in *. destruct N as [N|N]; subst o.
     + destruct (IHr (emit (repeat (NEv 0) k) p) H2 (steady_emit _ _ S)) as [E2 N2]. rewrite E2.
       destruct (evs r) as [k2 o2]. simpl in *. rewrite emit_emit, <- repeat_app. split; [reflexivity|exact N2].
-    + split; [reflexivity|discriminate].
+    + split; [reflexivity|right; reflexivity].
 Qed.
 
-Theorem multi_module_grammar_partial l body : no_raise body = true ->
-  notes (run_process l body) = NBegin 0 :: repeat (NEv 0) (fst (evs body)) ++ [NEnd 0; NDump 0].
+Theorem multi_module_grammar_partial cov l body : no_raise body = true ->
+  notes (snd (run_process_cov cov l body)) = NBegin 0 :: repeat (NEv 0) (fst (evs body)) ++ [NEnd 0; NDump 0].
 Proof.
-  intros H. unfold run_process, run_entry. simpl.
+  intros H. unfold run_process_cov, run_entry. simpl.
   set (p1 := {| slot := Some 0; created := 1; ended := []; notes := [NBegin 0] |}).
   assert (S : steady p1) by (repeat split).
-  destruct (proj2 multi body p1 H S) as [E N]. rewrite E.
+  destruct (proj2 (multi cov) body p1 H S) as [E N]. rewrite E.
   destruct (evs body) as [k o]. simpl in *.
-  destruct o, l; try congruence; simpl; unfold end_exec, emit; simpl; rewrite <- ?app_assoc; reflexivity.
+  destruct N as [N|N]; subst o; destruct l; simpl; unfold end_exec, emit; simpl; rewrite <- ?app_assoc; reflexivity.
 Qed.
 
-(* ---- refutations of the full statement (genuine deviations of the unchanged code, DESIGN 12 #16) *)
+(* ---- refutations of the full statement (genuine deviations of the unchanged code, DESIGN 12 #16, #17) *)
 (* an exception raised in an imported instrumented module and handled by the importer is reported as
    uncaught, end_execution precedes later events, and the coverage dump misses them *)
 Definition w_handled : items :=
   ICons IEv (ICons (IImport (ICons IEv (ICons IRaise INil)) true) (ICons IEv INil)).
 Theorem multi_module_refuted_handled :
   notes (run_process LRunAnalysis w_handled)
-  = [NBegin 0; NEv 0; NEv 0; NEv 0; NUncaught 0; NEnd 0; NDump 0; NEv 0].
+  = [NBegin 0; NEv 0; NEv 0; NRe 0; NUncaught 0; NEnd 0; NDump 0; NEv 0].
 Proof. vm_compute. reflexivity. Qed.
 
 (* an exception escaping through two instrumented modules is reported as uncaught twice *)
 Definition w_twice : items := ICons (IImport (ICons IRaise INil) false) INil.
 Theorem multi_module_refuted_twice :
   notes (run_process LRunAnalysis w_twice)
-  = [NBegin 0; NEv 0; NUncaught 0; NEnd 0; NDump 0; NEv 0; NUncaught 0].
+  = [NBegin 0; NRe 0; NUncaught 0; NEnd 0; NDump 0; NRe 0; NUncaught 0].
 Proof. vm_compute. reflexivity. Qed.
 
 (* non-vacuity of the single-module theorem *)
 Example single_ex :
   notes (run_process LDirect (ICons IEv (ICons IEv (ICons IRaise (ICons IEv INil)))))
-  = [NBegin 0; NEv 0; NEv 0; NEv 0; NUncaught 0; NEnd 0; NDump 0].
+  = [NBegin 0; NEv 0; NEv 0; NRe 0; NUncaught 0; NEnd 0; NDump 0].
 Proof. vm_compute. reflexivity. Qed.
